@@ -204,6 +204,8 @@ def ref_note(spec, S, basic=False):
 def ref_cell(spec, S, basic=False):
     k = spec['k']
     if k == 'v':
+        if spec.get('hidden'):
+            return NULL          # an invisible token is exported as a null placeholder whatever the selection
         if spec['cat'] == 'EMPTY' or (spec['cat'] is not None and spec['cat'] not in S):
             return NULL          # cat None = category not settled by the documentation: generated only in unfiltered exports
         return spec['out']
